@@ -14,9 +14,9 @@ use crate::rt::{self, run_dna, Out};
 use crate::watch::{self, ChildResult};
 use peppi::io::slippi::de;
 
-pub const OPS: [&str; 23] = [
+pub const OPS: [&str; 24] = [
 	"insert_event", "delete_event", "dup_event", "swap_events", "frame_id", "port_byte", "follower_flag", "illegal_event", "table_size", "table_zero",
-	"table_dup", "table_drop", "table_sizebyte", "raw_len", "splitter_field", "meta_garbage", "meta_depth", "meta_retag", "truncate", "flip_bytes", "splice", "random_bytes", "no_players",
+	"table_dup", "table_drop", "table_sizebyte", "raw_len", "splitter_field", "meta_garbage", "meta_depth", "meta_retag", "resize_consistent", "truncate", "flip_bytes", "splice", "random_bytes", "no_players",
 ];
 
 /// README's incremental loop; "ok" / "err" / "panic"
@@ -67,6 +67,29 @@ fn incremental_guarded(bytes: &[u8]) -> Out<()> {
 	})
 }
 
+/// A caller that keeps asking for events until the declared raw length is used up (so it also
+/// consumes whatever follows the first Game End), over a reader that hands out short reads.
+/// Returns (outcome, no-progress flag).
+fn incremental_to_raw_len(bytes: &[u8]) -> (Out<()>, bool) {
+	let mut r = SchedReader::new(bytes, Schedule::Fixed(1 + bytes.len() % 9));
+	let out = rt::guard(|| -> Result<(), String> {
+		let size = de::parse_header(&mut r, None).map_err(|e| e.to_string())? as usize;
+		let mut state = de::parse_start(&mut r, None).map_err(|e| e.to_string())?;
+		let mut calls = 0usize;
+		while state.bytes_read() < size {
+			let before = state.bytes_read();
+			de::parse_event(&mut r, &mut state, None).map_err(|e| e.to_string())?;
+			calls += 1;
+			if state.bytes_read() <= before && calls > bytes.len() + 16 {
+				return Err("no progress".into());
+			}
+			let _ = state.frames().len();
+		}
+		Ok(())
+	});
+	(out, r.over_budget)
+}
+
 struct Corrupted {
 	bytes: Vec<u8>,
 	ops: Vec<&'static str>,
@@ -101,7 +124,7 @@ fn corrupt_structural(raw: &mut RawFile, m: &ModelGame, d: &mut Dna, op: &'stati
 			}
 		}
 		"frame_id" => {
-			let cands: Vec<usize> = (0..n).filter(|&k| matches!(raw.events[k].at, Where::Frame(_))).collect();
+			let cands: Vec<usize> = (0..n).filter(|&k| matches!(raw.events[k].at, Where::Frame(_)) && raw.events[k].payload.len() >= 4).collect();
 			if !cands.is_empty() {
 				let k = cands[d.below(cands.len())];
 				let id = match d.u8() {
@@ -116,7 +139,7 @@ fn corrupt_structural(raw: &mut RawFile, m: &ModelGame, d: &mut Dna, op: &'stati
 			}
 		}
 		"port_byte" | "follower_flag" => {
-			let cands: Vec<usize> = (0..n).filter(|&k| raw.events[k].code == spec::EV_PRE || raw.events[k].code == spec::EV_POST).collect();
+			let cands: Vec<usize> = (0..n).filter(|&k| (raw.events[k].code == spec::EV_PRE || raw.events[k].code == spec::EV_POST) && raw.events[k].payload.len() >= 6).collect();
 			if !cands.is_empty() {
 				let k = cands[d.below(cands.len())];
 				if op == "port_byte" {
@@ -157,6 +180,22 @@ fn corrupt_structural(raw: &mut RawFile, m: &ModelGame, d: &mut Dna, op: &'stati
 				180..=219 => 65535,
 				_ => d.u16().max(1),
 			};
+		}
+		"resize_consistent" => {
+			// an event type whose declared size and every payload are shorter (or longer) than the
+			// version prescribes: the file stays self-consistent, only the version claim is off
+			let k = d.below(raw.table.len());
+			let (code, size) = raw.table[k];
+			let new = match d.u8() {
+				0..=99 => size.saturating_sub(1 + d.below(size.max(1) as usize) as u16).max(1),
+				100..=159 => 1 + d.below(6) as u16,
+				160..=199 => size / 2 + 1,
+				_ => size.saturating_add(1 + d.below(8) as u16),
+			};
+			raw.table[k].1 = new;
+			for e in raw.events.iter_mut().filter(|e| e.code == code) {
+				e.payload.resize(new as usize, 0);
+			}
 		}
 		"table_zero" => {
 			let k = d.below(raw.table.len());
@@ -355,7 +394,7 @@ fn gen_corrupted(dna: &[u8], cfg: &GenCfg, other: &[u8]) -> Corrupted {
 		_ => 3,
 	};
 	for _ in 0..nstruct {
-		let op = OPS[md.below(18)]; // structural ones
+		let op = OPS[md.below(19)]; // structural ones
 		let op = if md.u8() == 255 { "no_players" } else { op };
 		corrupt_structural(&mut raw, &m, &mut d, op);
 		ops.push(op);
@@ -468,6 +507,11 @@ fn battery(ctx: &Ctx, c: &Corrupted, stats: &Stats, counting: bool, deep_faults:
 	// incremental API over the same input
 	if let Out::Panic(p) = incremental_guarded(bytes) {
 		return Err(mk(format!("op=incremental panic~{}", rt::panic_site(&p)), format!("incremental API panicked: {}", p)));
+	}
+	match incremental_to_raw_len(bytes) {
+		(Out::Panic(p), _) => return Err(mk(format!("op=incremental_past_end panic~{}", rt::panic_site(&p)), format!("incremental API (events requested until the raw length is used up) panicked: {}", p))),
+		(Out::Err(e), stuck) if stuck || e == "no progress" => return Err(mk("op=incremental_past_end no_progress".into(), "parse_event keeps returning without consuming input".into())),
+		_ => {}
 	}
 	if counting {
 		ctx.eval();
